@@ -148,7 +148,7 @@ func runC17Tamper(x *mc.X) {
 				bytevals = append(bytevals, b)
 			}
 		}
-		for off := ci * len(orig) / slices; off < (ci+1)*len(orig)/slices; off++ {
+		for off := ci * len(orig) / nSlices; off < (ci+1)*len(orig)/nSlices; off++ {
 			if bytevals != nil {
 				for _, b := range bytevals {
 					if byte(b) == orig[off] {
@@ -408,8 +408,8 @@ func runC17Transport(x *mc.X) {
 	}
 	orig := files[target]
 	// a fixed number of slices of the file (its length varies by a few bytes with the wall-clock timestamps in it)
-	const slices = 12
-	ci := x.Choose("offset-slice", slices+1)
+	const nSlices = 12
+	ci := x.Choose("offset-slice", nSlices+1)
 	restore := func() {
 		for p, b := range files {
 			_ = os.WriteFile(p, b, 0o644)
@@ -432,7 +432,7 @@ func runC17Transport(x *mc.X) {
 		}
 		return true
 	}
-	if ci == slices {
+	if ci == nSlices {
 		// truncations and extensions
 		for k := 0; k < len(orig); k += max(1, len(orig)/64) {
 			if !probe(fmt.Sprintf("truncated to %d", k), orig[:k]) {
@@ -445,7 +445,7 @@ func runC17Transport(x *mc.X) {
 			}
 		}
 	} else {
-		for off := ci * len(orig) / slices; off < (ci+1)*len(orig)/slices; off++ {
+		for off := ci * len(orig) / nSlices; off < (ci+1)*len(orig)/nSlices; off++ {
 			for _, b := range []byte{orig[off] ^ 0x01, orig[off] ^ 0x80} {
 				m := append([]byte(nil), orig...)
 				m[off] = b
